@@ -32,7 +32,7 @@ type c11Spec struct {
 	Cls *c11ClsSpec `json:"cls,omitempty"`
 }
 
-var c11Classes = []string{"Fsoil", "Ffield", "Ftex", "Ftex2", "Fptf", "Fgap", "Ftill", "Fyear", "Fargs", "Flate", "Fgap0"}
+var c11Classes = []string{"Fsoil", "Ffield", "Ftex", "Ftex2", "Fptf", "Fgap", "Ftill", "Fyear", "Fargs", "Flate", "Fgap0", "Fgapy"}
 
 func c11Specs(tier string, seed int) []c11Spec {
 	var out []c11Spec
@@ -40,8 +40,8 @@ func c11Specs(tier string, seed int) []c11Spec {
 	for _, f := range c11Classes {
 		for pos := 0; pos < 4; pos++ {
 			for conc := 1; conc <= 4; conc++ {
-				if tier == "quick" && (pos+conc+len(f)+seed)%2 == 1 {
-					continue // quick: half of the (position, concurrency) grid per class, rotating with the seed
+				if tier == "quick" && (pos+2*conc+len(f)+seed)%3 != 0 {
+					continue // quick: a third of the (position, concurrency) grid per class, rotating with the seed
 				}
 				out = append(out, c11Spec{Kind: "e4", Fail: f, Pos: pos, Conc: conc})
 			}
@@ -98,14 +98,14 @@ func init() {
 	mc.Register(&mc.Check{
 		ID:        "C11",
 		Technique: "stateless model checking of the real dispatcher and runs under a controlled scheduler (all interleavings up to a preemption bound) for batches with a failing line, plus exhaustive enumeration over the real command-line program: failing-line class x position x concurrency, and fertiliser prediction at every integer latitude with a termination deadline",
-		Rule: "e4 scenario = batch of three valid lines and one line failing in one of 11 error classes (unknown soil id, unknown field id, texture not in the tables with and without explicit capacity values, inconsistent texture fractions under a transfer function, weather gap inside a file and missing year file, tillage between sowing and harvest, start-year mismatch before and after the weather series, missing project argument) at every position, concurrency 1-4, run by the real hermes2go: the process must terminate with exit code 0, the error summary must list exactly the failing line ids, every valid line's result files must be byte-identical to that line run alone, the failing line must not disturb files of others; " +
+		Rule: "e4 scenario = batch of three valid lines and one line failing in one of 12 error classes (unknown soil id, unknown field id, texture not in the tables with and without explicit capacity values, inconsistent texture fractions under a transfer function, weather gap inside a file , missing year file and a whole year absent from a multi-year file, tillage between sowing and harvest, start-year mismatch before and after the weather series, missing project argument) at every position, concurrency 1-4, run by the real hermes2go: the process must terminate with exit code 0, the error summary must list exactly the failing line ids, every valid line's result files must be byte-identical to that line run alone, the failing line must not disturb files of others; " +
 			"e3 scenario = two valid lines and a failing line under the scheduler: every interleaving must satisfy the same oracle and never deadlock; cls scenario = the error classes as input spaces: every strictly ascending list of up to 3 tillage dates over 18 anchor dates around sowing and harvest of two crops (the run must report the error iff a date lies strictly between a sowing and its harvest, and succeed if every date lies outside [sowing, harvest]), start years -3..+3 around the first harvest year, texture sums 60..150 % x horizon x 4 transfer functions; lat scenario = fertiliser prediction switched on at every integer latitude -90..90 x 4 prediction dates: every run must end (success or run error) within 120 s (normal: < 0.1 s)",
 		Assumptions: []string{"valid lines: two plots sharing all project files, one project sharing the parameter folder", "termination deadline 120 s per process (more than 1000 x the normal duration)", "scheduler assumptions as for C03"},
 		Bound: func(t string) string {
 			if t == "quick" {
-				return "11 failing-line classes x 4 positions x 4 concurrency levels (half of the grid) + 9 mixed batches on the real binary; 3 classes x 3 positions x 3 concurrency levels at preemption bound 1 under the scheduler; 181 latitudes x 4 dates; error classes: 987 tillage lists, 7 start years, 15 texture sums x 2 horizons x 4 functions"
+				return "12 failing-line classes x 4 positions x 4 concurrency levels (a third of the grid) + 9 mixed batches on the real binary; 3 classes x 3 positions x 3 concurrency levels at preemption bound 1 under the scheduler; 181 latitudes x 4 dates; error classes: 987 tillage lists, 7 start years, 15 texture sums x 2 horizons x 4 functions"
 			}
-			return "11 classes x 4 positions x 4 concurrency levels + 9 mixed batches on the real binary; 11 classes x 3 positions x 3 concurrency levels at preemption bound 3 under the scheduler; 181 latitudes x 4 dates; error classes as for quick"
+			return "12 classes x 4 positions x 4 concurrency levels + 9 mixed batches on the real binary; 12 classes x 3 positions x 3 concurrency levels at preemption bound 3 under the scheduler; 181 latitudes x 4 dates; error classes as for quick"
 		},
 		Budget: func(t string) time.Duration {
 			if t == "quick" {
@@ -202,6 +202,10 @@ func c11Run(raw json.RawMessage, c *mc.Ctx) {
 			}
 			ref[n] = dirFiles(filepath.Join(root, "ref", n))
 			failed := strings.Contains(out, "[0] Error:")
+			if strings.HasPrefix(n, "F") && !failed {
+				c.Violate("input-error-not-reported "+n, fmt.Sprintf("line %s run alone: the input is in one of the error classes, but the run reported success: %s", n, tailStr(out, 300)), nil)
+				return
+			}
 			if failed != strings.HasPrefix(n, "F") {
 				mc.HarnessError("C11: line %s alone: failed=%v; output %s", n, failed, tailStr(out, 400))
 			}
